@@ -288,7 +288,9 @@ def get_cauchy_point(
     delta_t_min = 0 if delta_t_min < 0 else delta_t_min
     t_old += delta_t_min
 
-    x_cp[t >= t_cur] = (x + t_old * d)[t >= t_cur]
+    # move the variables that are still free; those already fixed stay on their bounds
+    # (with tied breakpoints, t >= t_cur also selects variables fixed at the same t)
+    x_cp[d != 0] = (x + t_old * d)[d != 0]
 
     c += delta_t_min * p
 
